@@ -80,10 +80,10 @@ def run_worker(job, so, tmp, asan_rt=None):
     t0 = time.time()
     try:
         p = subprocess.run(cmd, env=env, cwd=VERIF, capture_output=True, text=True,
-                           timeout=job.get('timeout_s', 900))
+                           timeout=job.get('timeout_s', 900 if job.get('tier') == 'quick' else 3600))
         rc, so_, se_ = p.returncode, p.stdout, p.stderr
     except subprocess.TimeoutExpired as e:
-        return {'job': job, 'status': 'inconclusive', 'reason': 'watchdog %ss' % job.get('timeout_s', 900),
+        return {'job': job, 'status': 'inconclusive', 'reason': 'watchdog %ss' % job.get('timeout_s', 900 if job.get('tier') == 'quick' else 3600),
                 'stdout': (e.stdout or b'')[-2000:].decode('utf8', 'replace') if isinstance(e.stdout, bytes) else str(e.stdout)[-2000:]}
     res = None
     if os.path.exists(of):
